@@ -242,7 +242,9 @@ let rec gen_mapexpr r ctx depth : expr =
                (match List.assoc_opt (b x) ctx with Some (VMap (MAny, kvs)) -> kvs | _ -> []) with
        | [] -> var x
        | l -> let (k, _) = pickl r l in
-              let alpha = (match k with VStr s -> let t = s_of s in t <> "" && not (t.[0] >= '0' && t.[0] <= '9') | _ -> false) in
+              let ident t = t <> "" && not (t.[0] >= '0' && t.[0] <= '9')
+                            && String.for_all (fun ch -> (ch >= 'a' && ch <= 'z') || (ch >= 'A' && ch <= 'Z') || (ch >= '0' && ch <= '9') || ch = '_') t in
+              let alpha = (match k with VStr s -> ident (s_of s) | _ -> false) in
               if alpha && rbool r then EAttr (var x, (match k with VStr s -> s | _ -> b "a")) else EItem (var x, key_lit k))
   | 7 -> filt (filt (var x) "merge" [ var x ]) "merge" [ gen_hash r ctx ]
   | _ -> var x
